@@ -123,6 +123,10 @@ def prepare(verbose=True):
         # 6. implementation harness, from the working tree, hooks on
         hdir = os.path.join(ROOT, "harness")
         shutil.copyfile(os.path.join(REPO, "go.sum"), os.path.join(hdir, "go.sum"))
+        gm = open(os.path.join(hdir, "go.mod")).read()
+        gm2 = re.sub(r"replace github.com/islishude/bip39 => .*", "replace github.com/islishude/bip39 => " + REPO, gm)
+        if gm2 != gm:
+            open(os.path.join(hdir, "go.mod"), "w").write(gm2)
         rc, out = sh(["go", "build", "-tags", "verif", "-o", os.path.join(BUILD, "implrun"), "."], cwd=hdir, env=GOENV, timeout=900)
         impl_ok = rc == 0
         if not impl_ok:
